@@ -105,11 +105,47 @@ def export_tree(df, exp):
     return f"({listlit(js)}, {listlit(wh)}, {listlit(sel)})"
 
 
+def _is_dummy(n, exp):
+    """the `'<uuid hex>' = '<uuid hex>'` predicate _add_ctes_to_expression adds to make a duplicated CTE's hash unique"""
+    while isinstance(n, exp.Paren):
+        n = n.this
+    return (isinstance(n, exp.EQ) and isinstance(n.this, exp.Literal) and isinstance(n.expression, exp.Literal)
+            and n.this.is_string and n.expression.is_string and n.this.this == n.expression.this)
+
+
+def export_table_wheres(df, exp):
+    """per FROM/JOIN table: every WHERE conjunct of the chain of CTEs the table is built from (sorted Coq terms).
+    This is where a filter lost or gained while CTEs of a common ancestor are merged/renamed becomes visible."""
+    e = df.expression
+    ctes = {c.alias_or_name: c.this for c in e.ctes}
+    frm = e.args["from"].this
+    tabs = [frm.alias_or_name] + [j.this.alias_or_name for j in (e.args.get("joins") or [])]
+    out = []
+    for t in tabs:
+        conj, name, seen = [], t, set()
+        while name in ctes and name not in seen:
+            seen.add(name)
+            sel = ctes[name]
+            if not isinstance(sel, exp.Select):
+                raise rel.NotExportable("CTE is not a SELECT")
+            w = sel.args.get("where")
+            f = sel.args.get("from")
+            derived = f is not None and isinstance(f.this, exp.Table)
+            if w is not None:
+                for c in rel.flatten_and(w.this, exp):
+                    # the createDataFrame block of an empty table is `... FROM VALUES ... WHERE FALSE`: not a user filter
+                    if not _is_dummy(c, exp) and (derived or not isinstance(c, exp.Boolean)):
+                        conj.append(rel.x_expr(c, exp))
+            name = f.this.alias_or_name if derived else None
+        out.append(listlit(sorted(conj)))
+    return listlit(out)
+
+
 # ---- one case on the implementation -----------------------------------------------------------------------------------
 
-def run_case(case, session, F, exp):
-    b = cc.Builder(session, F, case["data"])
-    impl, exc, exported, why = None, None, "None", None
+def run_case(case, session, F, exp, order_seed=None):
+    b = cc.Builder(session, F, case["data"], order_seed=order_seed)
+    impl, exc, exported, why, twh = None, None, "None", None, "None"
     df = None
     try:
         df = b.final(case)
@@ -118,6 +154,7 @@ def run_case(case, session, F, exp):
     if df is not None:
         try:
             exported = "(Some " + export_tree(df, exp) + ")"
+            twh = "(Some " + export_table_wheres(df, exp) + ")"
         except rel.NotExportable as ne:
             why = str(ne)
         except Exception as ex:  # fail-closed: any surprise in the exporter counts as not exportable
@@ -126,11 +163,12 @@ def run_case(case, session, F, exp):
             impl = cc.observe(df)
         except Exception as ex:
             exc = f"{type(ex).__name__}: {str(ex)[:160]}"
-    return impl, exc, exported, why, b
+    return impl, exc, (exported, twh), why, b
 
 
-def _work(chunk):
+def _work(arg):
     """worker process: run a chunk of cases on the implementation and render them as Coq terms"""
+    chunk, order_seed = arg
     logging.disable(logging.WARNING)     # join() logs a warning for every `on=None`
     from sqlframe.duckdb import DuckDBSession
     import sqlframe.duckdb.functions as F
@@ -142,10 +180,10 @@ def _work(chunk):
         pass
     out = []
     for case in chunk:
-        impl, exc, exported, why, b = run_case(case, session, F, exp)
+        impl, exc, (exported, twh), why, b = run_case(case, session, F, exp, order_seed)
         lin = rd.observe_lineage(case, session, F, b)
         try:
-            term = rd.case_coq(case, lin, impl, exported)
+            term = rd.case_coq(case, lin, impl, exported, table_wheres=twh)
             err = None
         except Exception as ex:
             term, err = None, f"{type(ex).__name__}: {ex}"
@@ -154,10 +192,10 @@ def _work(chunk):
     return out
 
 
-def run_cases_parallel(cases, workers=6):
+def run_cases_parallel(cases, workers=6, order_seed=None):
     from concurrent.futures import ProcessPoolExecutor
     n = max(1, (len(cases) + workers * 4 - 1) // (workers * 4))
-    chunks = [cases[i:i + n] for i in range(0, len(cases), n)]
+    chunks = [(cases[i:i + n], order_seed) for i in range(0, len(cases), n)]
     with ProcessPoolExecutor(max_workers=workers) as ex:
         res = list(ex.map(_work, chunks))
     return [r for ch in res for r in ch]
@@ -202,14 +240,18 @@ def run(ctx: core.Ctx):
     # ---- proofs
     proved = ctx.prove([ctx.build + "/gen/C02Facts.v"] + ([core.COQ + "/props/C02.v"] if t1_ok else []), dep_theories=DEPS)
     # ---- T2/T3
-    rnd = random.Random(ctx.seed)
-    cases = gen.gen_cases(rnd, ctx.tier)
+    # The PROGRAMS are drawn from a fixed seed (the one oracle/c02_pyspark.jsonl was recorded with), so that every run is
+    # judged by the same recorded PySpark answers; VERIF_SEED varies the row order of the input tables (results are bags).
+    cases = gen.gen_cases(random.Random(gen.PROGRAM_SEED), ctx.tier)
     # recordings: key -> PySpark's answer
     rec_path = os.path.join(core.VERIF, "oracle", "c02_pyspark.jsonl")
     recs = []
     if os.path.exists(rec_path):
         for line in open(rec_path):
-            recs.append(json.loads(line))
+            try:
+                recs.append(json.loads(line))
+            except ValueError:
+                ctx.log("skipping an incomplete line of the recording (recorder still running?)")
     rec_by_key = {cc.key({x: r["case"][x] for x in ("left", "steps", "fin", "data")}): r["result"] for r in recs}
 
     items, metas = [], []
@@ -221,7 +263,7 @@ def run(ctx: core.Ctx):
         hist[h][k] = hist[h].get(k, 0) + 1
 
     ctx.log(f"running {len(cases)} cases on the implementation")
-    results = run_cases_parallel(cases, workers=8)
+    results = run_cases_parallel(cases, workers=8, order_seed=ctx.seed)
     for case, w in zip(cases, results):
         if w["term"] is None:
             ctx.broken("harness:render", f"{w['render_error']} on {rd.case_str(case)}")
